@@ -194,7 +194,8 @@ def g_addfields(rng, ragged):
 def g_addcolumn(rng, ragged):
     t = _table(rng, False)
     n = len(t) - 1
-    return {'table': t, 'field': 'col', 'col': ['c%d' % i for i in range(rng.choice([n, n, max(0, n - 1), n + 2, 0]))],
+    # the column may itself hold None, or the very value given as `missing`: real values, not "column exhausted"
+    return {'table': t, 'field': 'col', 'col': [rng.choice(['c%d' % i, 'c%d' % i, None, 'M']) for i in range(rng.choice([n, n, max(0, n - 1), n + 2, 0]))],
             'index': rng.choice([None, 0, 1, -1, 99]), 'missing': rng.choice([None, 'M'])}
 
 
